@@ -123,6 +123,14 @@ SPECS += [
          params={"time": "Int"}, **INTEG_COMMON),
 ]
 
+SPECS += [
+    # ---- sdk/output.py : eviction (C09) ---------------------------------------------------------------------------
+    dict(lean="Output__clear_data", path="sdk/output.py", qual="Output._clear_data", group="Output",
+         fields={"data": DATA, "_connected_inputs": "Dict[Obj,Opt[Int]]"}, params={"time": "Int", "target": "Obj"},
+         ret="Unit", assume_false=["isinstance(d[1], str)"], ignore_fields=["_total_mem"], locals={"d": ENTRY},
+         fuel={"len(self.data) > 1 and self.data[1][0] <= t_min": "len(self.data)"}, props=["C09"]),
+]
+
 
 def by_group():
     g = {}
